@@ -24,3 +24,21 @@ Proof.
   destruct (p_parse cfg toks) as [q s|c off|y s|] eqn:Ep; try discriminate.
   exfalso. exact (parse_no_crash cfg toks Hk Hne Hl y s Ep).
 Qed.
+
+(* compile() terminates: neither the lexer's state machine (Proofs/LexTerm.v) nor the parser's recursion
+   (Proofs/ParseTerm.v) exhausts the fuel the model gives it, whatever the text *)
+From JP Require Import Proofs.LexTerm Proofs.ParseTerm.
+Theorem compile_terminates cfg text : m_compile cfg text <> OutOfFuel.
+Proof.
+  unfold m_compile. pose proof (tokenize_terminates text) as A.
+  destruct (m_tokenize text) as [toks| | |]; cbn [bind]; try discriminate; [|congruence].
+  pose proof (parse_terminates cfg toks) as B. destruct (p_parse cfg toks); try discriminate. congruence.
+Qed.
+
+(* so compile() returns a query or raises a JSONPathError *)
+Theorem compile_total cfg text : forallb is_scalar text = true ->
+  (exists q, m_compile cfg text = Ok q) \/ (exists c off, m_compile cfg text = Err c off).
+Proof.
+  intros Hs. pose proof (compile_no_crash cfg text Hs) as A. pose proof (compile_terminates cfg text) as B.
+  destruct (m_compile cfg text) as [q|c off|x|]; [left; eauto | right; eauto | exfalso; exact (A x eq_refl) | congruence].
+Qed.
